@@ -195,9 +195,16 @@ prop("C08", "broker-side subscriptions converge to the app's calls", "fault_enum
      "calls; (2) on the first successful connection, and on any connection whose CONNACK said session present while "
      "AlwaysResubscribe is off, every SUBSCRIBE belongs to a request whose SUBACK had not yet been received. Non-trivial = a "
      "reconnect after an acknowledged subscribe together with a repeated filter, an unsubscribe or a request pending at the "
-     "fault; distinct = FNV-64 of the case JSON. A second generator (Timeouts) adds ResponseTimeout 5..20 ms and silently "
-     "dropped SUBACK / UNSUBACK / PUBACK / PUBREC so that requests time out on a live connection (also inside a retry pass).",
+     "fault; distinct = FNV-64 of the case JSON. Fault kind loseSession makes a session-keeping broker lose the session once. A second generator (Timeouts) adds ResponseTimeout 5..20 ms and silently "
+     "dropped SUBACK / UNSUBACK / PUBACK / PUBREC so that requests time out on a live connection (also inside a retry pass). "
+     "A third generator (Restore) builds the restore path by construction: 2..7 subscriptions with filters of 2..250 bytes, a broker "
+     "that loses the session on the 2nd (and sometimes 3rd) connection, the re-subscription pass cut at a chosen SUBSCRIBE before or "
+     "after the broker saw it, further Subscribe/Unsubscribe/Publish calls meanwhile; non-trivial there = session lost and a restore "
+     "SUBSCRIBE or its SUBACK lost. Rule (2) is a per-filter count: a SUBSCRIBE carrying f on a must-not-resubscribe connection needs "
+     "fewer received SUBACKs for f than (calls naming f + session-less non-first CONNACKs so far). Convergence is not demanded when the "
+     "broker dropped the session but that CONNACK never reached the client (undetectable in MQTT).",
      [dict(tests="^TestVerifC08_Timeouts$", checks_quick=1000, checks_thorough=12000, shards=8),
+      dict(tests="^TestVerifC08_Restore$", checks_quick=1500, checks_thorough=20000, shards=8),
       dict(tests="^TestVerifC08_Subscriptions$", checks_quick=3000, checks_thorough=45000, shards=16)],
      assumptions=["granted QoS equals requested QoS at the broker model", "quiescence is decided with the verif-tagged observation hook after the reconnect loop pushed its tasks"])
 
@@ -265,6 +272,7 @@ prop("C11", "every blocking call returns on cancel or connection end", "fault_en
      "cell except Disconnect x cause-before-call; distinct = distinct cells + distinct combinations (FNV-64 of the case JSON).",
      [dict(tests="^TestVerifC11_Grid$", exhaustive_once=True),
       dict(tests="^TestVerifC11_Combo$", checks_quick=3000, checks_thorough=90000, shards=8),
+      dict(tests="^TestVerifC11_Liveness$", checks_quick=60, checks_thorough=1500, shards=8, shards_quick=2),
       dict(tests="^TestVerifC11_ReconnectGrid$", checks_quick=300, checks_thorough=6000, shards=4)],
      assumptions=["requests are issued after Connect returned (a request overlapping an unfinished Connect waits for the connect lock by design)",
                   "a context cannot interrupt a blocked Transport.Write (left to the transport's deadlines): 'write' cells exist for link-end causes only",
